@@ -94,7 +94,7 @@ func guarded(f func() string) string {
 	}
 }
 
-const lineDeadline = 4 * time.Second
+const lineDeadline = 12 * time.Second // 4 s was reached by big.Rat texts like -5e999999 on a machine oversubscribed five times (false `hang` on control-c02-1)
 
 type conv struct{}
 
@@ -155,8 +155,12 @@ func scanStateFor(mode, tok string) *fakeState {
 	return &fakeState{err: errSentinel}
 }
 
+func hi64(p string) uint64 { h, _ := parsePair(p); return h }
+func lo64(p string) uint64 { _, l := parsePair(p); return l }
+
 func bigFloatStr(f *big.Float) string {
-	z, acc := f.Int(nil)
+	acc := f.Acc() // accuracy of the rounding SetInt performed (read before Int, which reports its own)
+	z, _ := f.Int(nil)
 	return fmt.Sprintf("%d %s %s %v", f.Prec(), z.Text(16), acc, f.IsInt())
 }
 
@@ -177,6 +181,8 @@ func runU(op string, a []string) string {
 		return "ok"
 	case "asbigfloat":
 		return bigFloatStr(mkU(parsePair(a[0])).AsBigFloat())
+	case "bigfloat64": // not the library: validates the model's rounding (roundToPrec) against math/big for the contrast
+		return bigFloatStr(new(big.Float).SetPrec(64).SetInt(exact(hi64(a[0]), lo64(a[0]), false)))
 	case "fromfloat":
 		return ustr(num.Uint128FromFloat64(math.Float64frombits(parseU64(a[0]))))
 	case "asfloat":
@@ -244,6 +250,8 @@ func runI(op string, a []string) string {
 		return "ok"
 	case "asbigfloat":
 		return bigFloatStr(mkI(parsePair(a[0])).AsBigFloat())
+	case "bigfloat64":
+		return bigFloatStr(new(big.Float).SetPrec(64).SetInt(exact(hi64(a[0]), lo64(a[0]), true)))
 	case "fromfloat":
 		return istr(num.Int128FromFloat64(math.Float64frombits(parseU64(a[0]))))
 	case "asfloat":
